@@ -1,4 +1,6 @@
 import Pycoin.Model.Value
+import Pycoin.Model.TxBuild
+import Pycoin.Props.C07
 /-!
 C13 — Transaction construction conserves value to the satoshi.
 Property theorems only (core Lean, no Mathlib).
@@ -319,3 +321,308 @@ theorem C13_mbtc_rt (n : Nat) (h : n < 10 ^ 20) : mbtcToSatoshi (satoshiToMbtc (
 #guard btcToSatoshi (satoshiToBtc 2100000000000000) = 2100000000000000
 
 end Pycoin.Value
+
+/-! # second part: recommended fee, create_tx as a whole, value accessors with coinbase / missing unspents -/
+namespace Pycoin.Build
+open Pycoin Pycoin.Wire
+
+/-! ## recommended_fee_for_tx -/
+
+/-- C13.recommended_fee_exact: the estimate is the per-thousand-bytes rate times the number of started thousands
+of bytes: the least `k` with `size ≤ 1000·k` -/
+theorem C13_recommended_fee_exact (n : Nat) :
+    ∃ k, recommendedFeeForSize n = Gen.TxFee.txFeePerThousandBytes * k ∧ n ≤ 1000 * k ∧ 1000 * k < n + 1000 := by
+  refine ⟨(999 + n) / 1000, rfl, ?_, ?_⟩ <;> omega
+
+/-- C13.recommended_fee_mono: a larger transaction is never estimated cheaper -/
+theorem C13_recommended_fee_mono (m n : Nat) (h : m ≤ n) : recommendedFeeForSize m ≤ recommendedFeeForSize n := by
+  unfold recommendedFeeForSize
+  apply Nat.mul_le_mul_left
+  omega
+
+/-- C13.recommended_fee_step: sizes within the same started thousand cost the same; the next thousand costs one rate more -/
+theorem C13_recommended_fee_step (n : Nat) :
+    recommendedFeeForSize (n + 1000) = recommendedFeeForSize n + Gen.TxFee.txFeePerThousandBytes := by
+  unfold recommendedFeeForSize
+  have : (999 + (n + 1000)) / 1000 = (999 + n) / 1000 + 1 := by omega
+  rw [this, Nat.mul_add, Nat.mul_one]
+
+#guard recommendedFeeForSize 0 = 0
+#guard recommendedFeeForSize 1 = Gen.TxFee.txFeePerThousandBytes
+#guard recommendedFeeForSize 1000 = Gen.TxFee.txFeePerThousandBytes
+#guard recommendedFeeForSize 1001 = 2 * Gen.TxFee.txFeePerThousandBytes
+
+/-! ## create_tx -/
+
+theorem setValues_values : ∀ (os : List TxOut) (vs : List Int), vs.length = os.length →
+    (setValues os vs).map (·.value) = vs
+  | [], [], _ => rfl
+  | [], _ :: _, h => by simp at h
+  | _ :: _, [], h => by simp at h
+  | o :: os, v :: vs, h => by
+    simp only [setValues, List.map_cons]
+    rw [setValues_values os vs (by simpa using h)]
+
+theorem fill_length : ∀ (outs : List Int) (vs : List Nat), (Value.fill outs vs).length = outs.length
+  | [], _ => rfl
+  | _ :: _, [] => rfl
+  | o :: os, v :: vs => by
+    unfold Value.fill
+    split <;> simp [fill_length os]
+
+theorem distribute_length (ins outs : List Int) (f : Int) (res : List Int)
+    (h : Value.distribute ins outs f = .ok res) : res.length = outs.length := by
+  unfold Value.distribute at h
+  split at h
+  · cases h; rfl
+  · simp only at h
+    split at h
+    · cases h
+    · split at h
+      · cases h
+      · cases h; exact fill_length _ _
+
+/-- the parts `create_tx` is made of, read back from a successful result -/
+theorem createTx_ok {sp : List SpForm} {pay : List Payable} {fee : Option Int} {lt v : Int} {b : Built}
+    (h : createTx sp pay fee lt v = .ok b) :
+    ∃ (sps : List Spendable) (f : Int) (vals : List Int),
+      mapFix sp = .ok sps ∧ feeUsed (draftTx sps pay v lt) fee = .ok f ∧
+      Value.distribute (sps.map (·.coinValue)) (pay.map (·.value)) f = .ok vals ∧
+      b.unspents = sps ∧ b.tx.ins = sps.map txInOf ∧ b.tx.outs.map (·.value) = vals ∧
+      b.tx.version = v ∧ b.tx.lockTime = lt := by
+  unfold createTx at h
+  split at h
+  · cases h
+  · rename_i sps hs
+    simp only at h
+    split at h
+    · cases h
+    · rename_i f hf
+      split at h
+      · cases h
+      · cases h
+      · rename_i vals hv
+        cases h
+        refine ⟨sps, f, vals, hs, hf, hv, rfl, rfl, ?_, rfl, rfl⟩
+        simp only [draftTx]
+        apply setValues_values
+        rw [distribute_length _ _ _ _ hv]
+        simp
+
+/-- C13.create_tx_conserves: whenever some output is left unspecified, the outputs of the transaction `create_tx`
+returns plus the fee set aside — the integer asked for, or with `fee="standard"` the estimate for the draft
+transaction — sum exactly to the values of the spendables; and `tx.fee()` reports exactly that fee -/
+theorem C13_create_tx_conserves (sp : List SpForm) (pay : List Payable) (fee : Option Int) (lt v : Int) (b : Built)
+    (h : createTx sp pay fee lt v = .ok b) (hz : Value.zeroCount (pay.map (·.value)) ≠ 0) :
+    ∃ f : Int, feeUsed (draftTx b.unspents pay v lt) fee = .ok f ∧
+      (b.tx.outs.map (·.value)).sum + f = (b.unspents.map (·.coinValue)).sum ∧
+      Value.fee (b.unspents.map (·.coinValue)) (b.tx.outs.map (·.value)) = f := by
+  obtain ⟨sps, f, vals, _, hf, hv, hu, _, ho, _, _⟩ := createTx_ok h
+  refine ⟨f, by rw [hu]; exact hf, ?_, ?_⟩
+  · rw [hu, ho]; exact Value.C13_distribute_conserves _ _ _ _ hz hv
+  · rw [hu, ho]; exact Value.C13_fee_def _ _ _ _ hz hv
+
+/-- C13.create_tx_pairing: input `i` of the transaction spends the outpoint of spendable `i`, with an empty script,
+and `unspents[i]` is that spendable; nothing is added or dropped -/
+theorem C13_create_tx_pairing (sp : List SpForm) (pay : List Payable) (fee : Option Int) (lt v : Int) (b : Built)
+    (h : createTx sp pay fee lt v = .ok b) :
+    b.tx.ins.length = b.unspents.length ∧ mapFix sp = .ok b.unspents ∧
+    ∀ (i : Nat) (s : Spendable), b.unspents[i]? = some s →
+      b.tx.ins[i]? = some ⟨s.txHash, s.txOutIndex, [], 4294967295, []⟩ := by
+  obtain ⟨sps, f, vals, hm, _, _, hu, hi, _, _, _⟩ := createTx_ok h
+  refine ⟨by rw [hi, hu]; simp, by rw [hu]; exact hm, ?_⟩
+  intro i s hs
+  rw [hi, ← hu]
+  simp [hs, txInOf]
+
+/-- C13.create_tx_errors: with a pool, `create_tx` raises exactly when what is left after the fixed outputs and the
+fee is less than one satoshi per unspecified output (the spendables being readable and the draft streamable) -/
+theorem C13_create_tx_errors (sps : List Spendable) (pay : List Payable) (f : Int)
+    (hz : Value.zeroCount (pay.map (·.value)) ≠ 0) :
+    (∃ b, createTx (sps.map SpForm.obj) pay (some f) = .ok b) ↔
+      (Value.zeroCount (pay.map (·.value)) : Int) ≤ (sps.map (·.coinValue)).sum - ((pay.map (·.value)).sum + f) := by
+  have hm : ∀ l : List Spendable, mapFix (l.map SpForm.obj) = .ok l := by
+    intro l; induction l with
+    | nil => rfl
+    | cons a as ih => simp [mapFix, fixSpendable, ih]
+  have hd := Value.C13_distribute_errors (sps.map (·.coinValue)) (pay.map (·.value)) f hz
+  unfold createTx
+  simp only [hm, feeUsed]
+  cases hv : Value.distribute (sps.map (·.coinValue)) (pay.map (·.value)) f with
+  | ok vals =>
+    refine ⟨fun _ => ?_, fun _ => ⟨_, rfl⟩⟩
+    have h1 : ¬ ((sps.map (·.coinValue)).sum - ((pay.map (·.value)).sum + f) < 0) := by
+      intro hlt; have := hd.1.2 hlt; rw [hv] at this; cases this
+    have h2 : ¬ (0 ≤ (sps.map (·.coinValue)).sum - ((pay.map (·.value)).sum + f) ∧
+        (sps.map (·.coinValue)).sum - ((pay.map (·.value)).sum + f) < (Value.zeroCount (pay.map (·.value)) : Int)) := by
+      intro hlt; have := hd.2.2 hlt; rw [hv] at this; cases this
+    omega
+  | error e =>
+    cases e with
+    | insufficient =>
+      have := hd.1.1 hv
+      constructor
+      · rintro ⟨b, hb⟩; cases hb
+      · intro hle; have : (0 : Int) ≤ (Value.zeroCount (pay.map (·.value)) : Int) := Int.natCast_nonneg _; omega
+    | notEnough =>
+      have := hd.2.1 hv
+      constructor
+      · rintro ⟨b, hb⟩; cases hb
+      · intro hle; omega
+
+/-- the shape a spendable is handed over in: 0 the object, 1 its `as_text()`, anything else its `as_dict()` -/
+def formOf (k : Nat) (s : Spendable) : SpForm :=
+  if k = 0 then .obj s else if k = 1 then .text s.asText else .dict s.asDict
+
+/-- C13.create_tx_form_independent: spendables handed over as `as_text()` or `as_dict()`, in any mixture, build the
+same transaction as the objects themselves (spent flag 0 or 1, which is what a `bool` stores) -/
+theorem C13_create_tx_form_independent (l : List (Spendable × Nat))
+    (hd : ∀ p ∈ l, p.1.doesSeemSpent = 0 ∨ p.1.doesSeemSpent = 1)
+    (pay : List Payable) (fee : Option Int) (lt v : Int) :
+    createTx (l.map fun p => formOf p.2 p.1) pay fee lt v = createTx (l.map fun p => SpForm.obj p.1) pay fee lt v := by
+  have h1 : mapFix (l.map fun p => formOf p.2 p.1) = .ok (l.map (·.1)) := by
+    induction l with
+    | nil => rfl
+    | cons a as ih =>
+      have ha : fixSpendable (formOf a.2 a.1) = .ok a.1 := by
+        unfold formOf
+        split
+        · rfl
+        · split
+          · exact C07_spendable_text_rt a.1 (hd a (by simp))
+          · exact C07_spendable_dict_rt a.1
+      simp only [List.map_cons, mapFix, ha, ih (fun p hp => hd p (by simp [hp]))]
+  have h2 : mapFix (l.map fun p => SpForm.obj p.1) = .ok (l.map (·.1)) := by
+    clear hd h1
+    induction l with
+    | nil => rfl
+    | cons a as ih => simp [mapFix, fixSpendable, ih]
+  unfold createTx
+  rw [h1, h2]
+
+/-- C13.create_signed_tx: a transaction comes back only when `create_tx` succeeds with the same result and every
+input's key was supplied -/
+theorem C13_create_signed_tx (sp : List SpForm) (pay : List Payable) (fee : Option Int) (needed supplied : List Nat) (b : Built)
+    (h : createSignedTx sp pay fee needed supplied = .ok b) :
+    createTx sp pay fee = .ok b ∧ ∀ k ∈ needed, k ∈ supplied := by
+  unfold createSignedTx at h
+  split at h
+  · cases h
+  · rename_i b' hb
+    split at h
+    · cases h
+      rename_i hall
+      refine ⟨hb, ?_⟩
+      intro k hk
+      have := List.all_eq_true.mp hall k hk
+      simpa using this
+    · cases h
+
+/-! ## total_in / fee with coinbase inputs and missing unspents; histories on one object -/
+
+/-- C13.total_in_complete: for a transaction that is not a coinbase, `total_in()` returns normally only when there
+is one recorded unspent per input and none is `None`; the answer is their sum -/
+theorem C13_total_in_complete (st : TxSt) (v : Int) (hcb : st.isCoinbase = false) (h : st.totalIn = .ok v) :
+    st.unspents.length = st.cb.length ∧ (∀ i, i < st.cb.length → ∃ x, st.unspents[i]? = some (some x)) ∧
+    v = (st.unspents.filterMap id).sum := by
+  unfold TxSt.totalIn at h
+  simp only [hcb, Bool.false_eq_true, if_false] at h
+  split at h
+  · cases h
+  · rename_i hm
+    cases h
+    unfold TxSt.missingUnspents at hm
+    simp only [hcb, Bool.false_eq_true, if_false, Bool.or_eq_true, not_or, bne_iff_ne, ne_eq, Decidable.not_not,
+      List.any_eq_true, not_exists, not_and] at hm
+    refine ⟨hm.1, ?_, rfl⟩
+    intro i hi
+    have := hm.2 i (List.mem_range.mpr hi)
+    unfold TxSt.missingUnspent at this
+    simp only [hcb, Bool.false_eq_true, if_false] at this
+    split at this
+    · simp at this
+    · split at this
+      · rename_i x hx; exact ⟨x, hx⟩
+      · simp at this
+
+/-- C13.fee_is_in_minus_out: whenever `fee()` returns, it is `total_in() − total_out()` -/
+theorem C13_fee_is_in_minus_out (st : TxSt) (f : Int) (h : st.fee = .ok f) :
+    ∃ tin, st.totalIn = .ok tin ∧ f = tin - st.outs.sum := by
+  unfold TxSt.fee at h
+  split at h
+  · rename_i v hv; cases h; exact ⟨v, hv, rfl⟩
+  · cases h
+
+/-- C13.value_history: after ANY history of reads and mutations (set_unspents, direct assignment,
+unspents_from_db with or without ignore_missing, output changes — failed ones included) on one transaction
+object, `fee()`, `total_in()` and `total_out()` answer what the stateless functions give on the fields as they are
+at that moment: nothing is remembered from earlier calls -/
+theorem C13_value_history (st : TxSt) (hist : List HStep) :
+    hRun st (hist ++ [.fee, .totalIn, .totalOut]) =
+      hRun st hist ++ [.ofExcept (hAfter st hist).fee, .ofExcept (hAfter st hist).totalIn, .val (hAfter st hist).totalOut] := by
+  induction hist generalizing st with
+  | nil => simp [hRun, hStep, hAfter]
+  | cons s ss ih =>
+    simp only [List.cons_append, hRun, hAfter, List.foldl_cons]
+    rw [ih]
+    rfl
+
+/-- C13.from_db_shape: `unspents_from_db` records one entry per input, `None` exactly for coinbase inputs and (when
+allowed) for inputs the db does not have -/
+theorem C13_from_db_shape (ign : Bool) : ∀ (cb : List Bool) (found us : List (Option Int)),
+    fromDbList ign cb found = .ok us → us.length = cb.length
+  | [], _, us, h => by cases h; rfl
+  | c :: cs, found, us, h => by
+    unfold fromDbList at h
+    simp only at h
+    split at h
+    · cases h
+    · split at h
+      · cases h
+      · rename_i xs hxs
+        cases h
+        simp [C13_from_db_shape ign cs found.tail xs hxs]
+
+#guard (TxSt.mk [false, false] [some 5, none] [3]).totalIn matches .error .valueError
+#guard (TxSt.mk [false, false] [some 5] [3]).totalIn matches .error .valueError
+#guard (TxSt.mk [true] [] [50, 1]).fee matches .ok (-1)
+#guard (TxSt.mk [false, true] [some 5, some 7] [3]).fee matches .ok 9
+#guard fromDbList false [false, true] [some 4, some 9] matches .ok [some 4, none]
+#guard fromDbList false [false] [none] matches .error .keyError
+#guard fromDbList true [false] [none] matches .ok [none]
+
+/-! ## validate_unspents with a database that may answer with another transaction -/
+
+/-- C13.validate_unspents_full_sound: `validate_unspents` returns normally only if, for every input that is not
+the null hash, the database holds a transaction *whose own hash is the one the input names*, and the recorded
+unspent equals (amount and script) the output of that transaction the input points at -/
+theorem C13_validate_unspents_full_sound (db : Bytes → Option SrcTx) (ins : List Value.In) (us : List Value.Out)
+    (h : validateUnspentsFull db ins us = .ok ()) :
+    ∀ (k : Nat) (i : Value.In), ins[k]? = some i → i.prevHash ≠ Value.zero32 →
+      ∃ (t : SrcTx) (o : Value.Out), db i.prevHash = some t ∧ t.hash = i.prevHash ∧
+        t.outs[i.prevIndex]? = some o ∧ us[k]? = some o := by
+  intro k i hk hnz
+  unfold validateUnspentsFull at h
+  split at h
+  · cases h
+  · rename_i hany
+    obtain ⟨outs, o, h1, h2, h3⟩ := Value.C13_validate_unspents_sound _ ins us h k i hk hnz
+    have hmem : i ∈ ins := List.mem_of_getElem? hk
+    have hl : lookupFails db i = false := by
+      cases hlf : lookupFails db i
+      · rfl
+      · exact absurd (List.any_eq_true.mpr ⟨i, hmem, hlf⟩) hany
+    cases hdb : db i.prevHash with
+    | none => simp [hdb] at h1
+    | some t =>
+      simp only [hdb, Option.map_some, Option.some.injEq] at h1
+      refine ⟨t, o, rfl, ?_, by rw [h1]; exact h2, h3⟩
+      unfold lookupFails at hl
+      simp only [hdb, Bool.and_eq_false_imp, bne_iff_ne, ne_eq] at hl
+      have := hl hnz
+      simpa using this
+
+#guard validateUnspentsFull (fun _ => some ⟨[9], [⟨5, []⟩]⟩) [⟨[7], 0⟩] [⟨5, []⟩] matches .error .keyError
+#guard validateUnspentsFull (fun _ => some ⟨[7], [⟨5, []⟩]⟩) [⟨[7], 0⟩] [⟨5, []⟩] matches .ok ()
+
+end Pycoin.Build
